@@ -84,6 +84,17 @@ pub async fn run_case(backend: &str, seed: u64, rep: &mut Report, ops: &mut Vec<
             Some(c) => match cur.iter().rposition(|r| sha256(&r.1) == c.0) { Some(p) => cur[..=p].iter().map(|r| r.1.clone()).collect(), None => cur.iter().map(|r| r.1.clone()).collect() },
             None => cur.iter().map(|r| r.1.clone()).collect(),
         };
+        // half of the patches carry the records the rewind removes (what a client's merged patch does); the others
+        // are refused by the stale-rewind guard unless the target is the newest record
+        if rng.chance(1, 2) {
+            let mut carried: Vec<(Row, EventRecord)> = vec![];
+            for r in cur[base_after.len()..].iter() {
+                let time: UtcDateTime = time::OffsetDateTime::from_unix_timestamp_nanos(r.0).unwrap().into();
+                carried.push(((r.0, r.1.clone()), EventRecord::new(time, Default::default(), CommitHash(sha256(&r.1)), r.1.clone())));
+            }
+            carried.extend(recs); recs = carried;
+        }
+        let stale = cur[base_after.len()..].iter().any(|r| !recs.iter().any(|x| x.0 .1 == r.1));
         // checkpoint
         let (cp_desc, proof, ck): (String, CommitProof, &str) = {
             let show_seq = |s: &Vec<Vec<u8>>| s.iter().map(hex::encode).collect::<Vec<_>>().join(",");
@@ -119,7 +130,10 @@ pub async fn run_case(backend: &str, seed: u64, rep: &mut Report, ops: &mut Vec<
             },
             Err(e) => { let e = e.to_string().to_lowercase(); (if e.contains("could not be found") { "err:commit-not-found".to_string() } else if e.contains("does not have a root") { "err:no-root-commit".into() } else { format!("err:other:{}", e.chars().take(50).collect::<String>().replace(' ', "_")) }, false) }
         };
-        rep.count(&format!("epatch:{}:{}", ck, out.split(':').next().unwrap()));
+        rep.count(&format!("epatch:{}:{}{}", ck, out.split(':').next().unwrap(), if stale { ":stale-rewind" } else { "" }));
+        if stale && accepted {
+            rep.spec_fail(&format!("{backend}-server-event-patch-dropped-records-it-did-not-carry"), json!({"case_seed": seed, "backend": backend, "script": script}), "an accepted rewind-and-patch request removed records that its patch does not carry");
+        }
         if !accepted && (after != cur || leaves_after != leaves_before) {
             rep.spec_fail(&format!("{backend}-refused-server-event-patch-changed-log"), json!({"case_seed": seed, "backend": backend, "script": script, "before": cur.len(), "after": after.len()}),
                 "a refused rewind-and-patch request changed the server's log");
